@@ -29,3 +29,26 @@ Proof.
   - intros a Ha. unfold reg, ex_state. cbn [cbus b_io1]. rewrite sget_snew0. lia.
   - reflexivity.
 Qed.
+
+(* the same with interrupt request 36 pending, I clear, the stack pointer in on-chip RAM and vector 36 -> H'FFC000 *)
+Definition ex_state_irq (ex : Z) : cpu :=
+  mkCpu 0xffc000 0 0 (mkRegs 0 0 0 0 0 0 0 0xffff00)
+        (mkBus (sset (sset (sset (snew (fun _ => 0)) 0x91 0xff) 0x92 0xc0) 0x93 0x00) (snew (fun _ => 0)) (snew (fun _ => 0))
+               (sset (sset (snew (fun _ => 0)) (0xffc000 - RAM_START) 0x0c) (0xffc001 - RAM_START) 0x01)
+               (snew (fun _ => 0)) (snew (fun _ => 0)) (snew (fun _ => 0)) 0 nil timer0)
+        (36 :: nil) ex 0 false false nil false.
+
+Lemma ex_state_irq_ok ex : state_ok (ex_state_irq ex).
+Proof.
+  unfold state_ok, cpu_ok. split; [split|split; [|split]].
+  - intros k. unfold word32, ex_state_irq, get_er. cbn [er r0 r1 r2 r3 r4 r5 r6 r7].
+    repeat match goal with |- context [if ?c then _ else _] => destruct c end; lia.
+  - cbn. lia.
+  - intros a v. unfold bus_read, ex_state_irq. cbn [cbus b_vec b_io1 b_dram b_ram b_io2].
+    unfold inr, VEC_START, VEC_END, IO1_START, IO1_END, DRAM_START, DRAM_END, RAM_START, RAM_END, IO2_START, IO2_END.
+    repeat match goal with |- context [if ?c then _ else _] => destruct c eqn:? end; intros H; inversion H; subst; clear H;
+      rewrite ?sget_sset by lia; rewrite ?sget_snew0;
+      repeat match goal with |- context [if ?c then _ else _] => destruct c end; lia.
+  - intros a Ha. unfold reg, ex_state_irq. cbn [cbus b_io1]. rewrite sget_snew0. lia.
+  - reflexivity.
+Qed.
